@@ -220,6 +220,7 @@ pub fn contains(state: &State, d: &ReplicationDelta) -> bool {
 
 pub struct Recovered {
     pub manifest: Manifest,
+    pub checkpoint: Option<HashMap<String, ReplicatedValue>>,
     pub state: State,
     pub deltas: usize,
 }
@@ -265,6 +266,7 @@ pub fn recover_image(img: &Image) -> Result<Recovered, ImageFault> {
     let state = fold(rec.checkpoint_state.as_ref(), &rec.deltas);
     Ok(Recovered {
         manifest: rec.manifest,
+        checkpoint: rec.checkpoint_state,
         state,
         deltas: rec.deltas.len(),
     })
@@ -316,11 +318,75 @@ pub fn check_manifest_objects(img: &Image, m: &Manifest) -> Result<(), ImageFaul
 }
 
 pub fn show_delta(d: &ReplicationDelta) -> String {
+    let mut c = client(Some(&d.value)).to_string();
+    if c.len() > 120 {
+        c = format!("{}…[{} chars]", c.chars().take(80).collect::<String>(), c.len());
+    }
     format!(
         "{}@({},r{}) {}",
         d.key,
         d.value.timestamp.time,
         d.value.timestamp.replica_id.0,
-        client(Some(&d.value))
+        c
     )
+}
+
+/// The code under test reports unreadable segments with `eprintln!` (compaction.rs); under
+/// fault enumeration that is tens of thousands of lines. The check therefore runs itself as a
+/// child process and forwards the child's stderr minus exactly those diagnostics; stdout
+/// (verdict lines) and the exit status pass through untouched.
+pub fn run_with_filtered_stderr(tag: &str) {
+    use std::io::{BufRead, BufReader};
+    use std::os::unix::process::CommandExt;
+    use std::process::{Command, Stdio};
+    if std::env::var_os("VERIF_FILTER_CHILD").is_some() {
+        return;
+    }
+    const NOISE: &[&str] = &[
+        "Segment ",
+        "Failed to open segment ",
+        "Invalid segment ",
+        "Failed to read delta",
+    ];
+    let exe = match std::env::current_exe() {
+        Ok(e) => e,
+        Err(_) => return,
+    };
+    let mut cmd = Command::new(exe);
+    cmd.args(std::env::args_os().skip(1))
+        .env("VERIF_FILTER_CHILD", "1")
+        .stderr(Stdio::piped());
+    unsafe {
+        cmd.pre_exec(|| {
+            // die with the parent (the dispatcher's watchdog kills the parent only)
+            libc::prctl(libc::PR_SET_PDEATHSIG, libc::SIGKILL);
+            Ok(())
+        });
+    }
+    let mut child = match cmd.spawn() {
+        Ok(c) => c,
+        Err(_) => return, // run unfiltered
+    };
+    let mut suppressed = 0u64;
+    if let Some(err) = child.stderr.take() {
+        for line in BufReader::new(err).split(b'\n').flatten() {
+            let text = String::from_utf8_lossy(&line);
+            if NOISE.iter().any(|p| text.starts_with(p)) {
+                suppressed += 1;
+            } else {
+                eprintln!("{}", text);
+            }
+        }
+    }
+    let status = child.wait();
+    if suppressed > 0 {
+        eprintln!(
+            "[{}] {} diagnostic lines printed by the code under test (unreadable/missing segments during compaction) not shown",
+            tag, suppressed
+        );
+    }
+    std::process::exit(match status {
+        Ok(s) => s.code().unwrap_or(2),
+        Err(_) => 2,
+    });
 }
